@@ -202,7 +202,7 @@ def run_shard(shard, rec, tier, seed):
             rec.cls("whole_seconds_minutes_hours_days_and_half_a_microsecond_short_of_them")
         else:
             prof = "hostile" if i % 2 else "realistic"
-            case = gen.gen_chart(rng, prof, n_tempos=rng.choice([1, 2, 3, 5, 12, 30, 80]) if prof == "hostile" else None)
+            case = gen.chart_or_interactions(rng, i, prof, rec, n_tempos=rng.choice([1, 2, 3, 5, 12, 30, 80]) if prof == "hostile" else None)
         if "queries" not in case:
             tm = TempoMap(case["truth"]["resolution"], case["truth"]["tempos"])
             hz = tm.horizon(model.TIME_LIMIT_US - 1)
